@@ -166,6 +166,12 @@ let process files texts toks ops noguard =
       (jm (record_targs st id)) (jm (record_fields st id))
       (jlist (fun p -> string_of_int (int_of_n p)) (record_parents st id)))
     st.sm_records));
+  add "],\"defsets\":[";
+  add (String.concat "," (List.mapi (fun i (_ : entry) ->
+    jlist (fun p -> string_of_int (int_of_n p)) (defset_defs st (n_of_int i))) st.sm_defsets));
+  add "],\"multiclasses\":[";
+  add (String.concat "," (List.mapi (fun i (_ : entry) ->
+    jlist (fun (n, v) -> Printf.sprintf "[%s,%d]" (jname n) (int_of_n v)) (multiclass_targs st (n_of_int i))) st.sm_multiclasses));
   add "],\"name_to_class\":";
   add (jlist (fun (n, v) -> Printf.sprintf "[%s,%d]" (jname n) (int_of_n v)) st.sm_name_to_class);
   add ",\"name_to_def\":";
